@@ -70,10 +70,10 @@ def run_one(engine, seed, acc, tier):
         for f in eval_twice(case, acc):
             acc.violation(base.violation(ID, f, case, seed, engine))
         return
-    case = c19.make_case(engine, seed, tight=False)
+    case = c19.make_case(engine, seed, tight=False, unicode=True)
     # a two-solution history in one process (state kept between read-backs, e.g. a cache, shows only then);
     # the prelude is explicit in the case so that a replay in a fresh process reproduces it
-    pre = c19.make_case(engine, core.h64('prelude', seed), tight=False)
+    pre = c19.make_case(engine, core.h64('prelude', seed), tight=False, unicode=True)
     case['prelude'] = {k: pre[k] for k in pre}
     try:
         c19.evaluate(case['prelude'], engine, None, want='C14')
